@@ -597,6 +597,16 @@ func (g *qgen) funcOf(d int) string {
 	case 8:
 		return fmt.Sprintf("histogram_quantile(%s, %s)", g.qparam(d-1), g.vec(d-1))
 	}
+	if g.o.Fallbacks && g.r.Intn(6) == 0 {
+		// functions that are not evaluated series by series: over all series at once, or over vector(time())
+		switch g.r.Intn(3) {
+		case 0:
+			return fmt.Sprintf("absent(%s)", g.vecSelector())
+		case 1:
+			return fmt.Sprintf("absent_over_time(%s[%s])", g.selector(), g.dur())
+		}
+		return pick(g.r, []string{"hour()", "year()", "minute()", "day_of_week()", "days_in_month()", "month()", "day_of_month()"})
+	}
 	if g.o.Fallbacks && g.r.Intn(2) == 0 {
 		return fmt.Sprintf("%s(%s)", pick(g.r, fallbackFuncs), g.vec(d-1))
 	}
